@@ -1183,6 +1183,12 @@ class Interp:
         r = self.lib.value_method(self, ov, name, args, kwargs)
         if r is not UNDEF:
             return r
+        if isinstance(ov, Builtin) and ov.name == "dict" and name == "fromkeys":
+            keys = self.iterate_concrete(args[0])
+            if keys is None or any(isinstance(kk, (Sym, SArr)) for kk in keys):
+                raise Unsupported("dict.fromkeys(symbolic keys)")
+            val = args[1] if len(args) > 1 else None
+            return {kk: val for kk in keys}
         raise Unsupported(f"method {name} of {type(ov).__name__}")
 
     # ---- operators
